@@ -33,7 +33,8 @@ def _match(f, obname, label):
 def run_property(prop, tier, seed, obs, info, workers=None, solver_timeout_ms=None, canary_count=None):
     t0 = time.time()
     solver_timeout_ms = solver_timeout_ms or (20000 if tier == "quick" else 120000)
-    H.DEFAULT_OB_TIMEOUT[0] = 300 if tier == "quick" else 3000
+    H.DEFAULT_OB_TIMEOUT[0] = 90 if tier == "quick" else 3000
+    H.DEFAULT_FORK_CAP[0] = 256 if tier == "quick" else 2048
     findings = load_findings(prop)
     known = [f for f in findings if f.get("status") == "known"]
     lines = []
